@@ -106,6 +106,11 @@ class Prog(object):
                 self.nleaves += 1
                 self.leaf_info[lid] = ("i", st[1], "ok")
                 out.append(("iv", sid, st[1], lid))
+            elif op == "cancel":
+                # cancel the currently active (pending) batch of a kind from inside a task
+                self.features.add("cancel")
+                self.kinds.add(st[1])
+                out.append(("cancel", sid, st[1]))
             elif op == "ddirty":
                 self.features.add("ddirty")
                 out.append(("ddirty", sid, st[1], st[2]))
@@ -330,6 +335,8 @@ class R1(object):
                 raise _R1Result(("t", tc.tid, tuple(rec)))
             elif op == "mk":
                 made.append(self.leaf_lazy(tc, st[2]))
+            elif op == "cancel":
+                self.unsupported = "cancel"
             elif op == "ddirty":
                 self.unsupported = "dd"
             elif op == "iv":
